@@ -106,7 +106,7 @@ theorem WstOK_step (cfg : Cfg) (s : St) (op : Op) : WstOK s (step cfg s op).1 :=
   | recv w =>
     simp only [step]; split
     · next c hst =>
-      exact WstOK_upd_shrink s w (.using c) (by simp) (by intro d hd; rw [hst]; exact hd) rfl
+      exact WstOK_upd_shrink s w (.inUse c) (by simp) (by intro d hd; rw [hst]; exact hd) rfl
     · next hst =>
       exact WstOK_upd_shrink s w .finished (by simp) (by intro d hd; cases hd) rfl
     · exact WstOK_of_eq rfl
